@@ -94,7 +94,11 @@ def prim_raises(name: str) -> FrozenSet[str]:
     for pre in ("str.", "bytes.", "list.", "dict.", "set.", "tuple.", "int.", "float.", "bool.", "method.", "exc.", "object."):
         if n.startswith(pre):
             leaf = n[len(pre):]
-            if leaf in ("decode", "encode", "fromisoformat"):
+            if leaf == "decode":
+                return frozenset({"UnicodeDecodeError"})
+            if leaf == "encode":
+                return frozenset({"UnicodeEncodeError"})
+            if leaf == "fromisoformat":
                 return frozenset({"ValueError"})
             if leaf in ("pop", "remove", "index"):
                 return frozenset({"LookupError", "ValueError"})
